@@ -87,6 +87,9 @@ func (x *Exec) verifyFunction(fn *ssa.Function, c *FuncContract) (rep FuncReport
 		}
 		nret++
 		penv := x.newEnv(st2, entry, nil)
+		if x.retFrame != nil && x.retFrame.fn == fn {
+			penv.fr = x.retFrame // postconditions may mention locals (their values at the return)
+		}
 		penv.fn = fn
 		penv.entryAlloc = "alloc0"
 		for i, p := range fn.Params {
